@@ -184,12 +184,16 @@ func c02RunShift(c *fw.C, caseID string) {
 	}
 }
 
+// c02Siblings: blocks competing with a block the producer accepted (per case; children run cases sequentially)
+var c02Siblings []c02Gossip
+
 type c02Gossip struct {
 	block    *nom.AccountBlock
 	atHeight uint64 // P's frontier height when the block was accepted into P's pool
 }
 
 func c02Run(c *fw.C, caseID string) {
+	c02Siblings = nil
 	if strings.HasPrefix(caseID, "shift:") {
 		c02RunShift(c, caseID)
 		return
@@ -363,6 +367,29 @@ func c02Run(c *fw.C, caseID string) {
 			}
 			c.Count("bursts_above_momentum_limit", 1)
 		}
+		// a user double-signs: the last user block the producer accepted in this round gets a SIBLING (same account, same
+		// height, different content, twice the plasma → it wins the pool's priority rule). The producer never hears of
+		// it; followers of one schedule do, before the momentum that confirms the weaker twin arrives.
+		if rq.Intn(3) == 0 && len(gossip) > 0 {
+			for gi := len(gossip) - 1; gi >= 0 && gossip[gi].atHeight == P.Height(); gi-- {
+				b1 := gossip[gi].block
+				if types.IsEmbeddedAddress(b1.Address) || b1.FusedPlasma == 0 || b1.Difficulty != 0 {
+					continue
+				}
+				if P.Chain.GetFrontierAccountStore(b1.Address).Identifier() != b1.Identifier() {
+					break // not the account's last block
+				}
+				inBurst = true
+				tx, err := P.Generate(&nom.AccountBlock{BlockType: nom.BlockTypeUserSend, Address: b1.Address, ToAddress: g.User2.Address, TokenStandard: types.ZnnTokenStandard, Amount: big.NewInt(1),
+					Height: b1.Height, PreviousHash: b1.PreviousHash, MomentumAcknowledged: b1.MomentumAcknowledged, FusedPlasma: b1.FusedPlasma * 2, Data: []byte("sibling")}, simnet.KeyFor(b1.Address))
+				inBurst = false
+				if err == nil && tx != nil && tx.Block.Hash != b1.Hash {
+					c02Siblings = append(c02Siblings, c02Gossip{block: tx.Block, atHeight: P.Height()})
+					c.Count("competing_siblings_created", 1)
+				}
+				break
+			}
+		}
 		skip := 0
 		if r.Intn(7) == 0 {
 			skip = 1 + r.Intn(3)
@@ -425,7 +452,7 @@ func c02Run(c *fw.C, caseID string) {
 
 	refDump := P.DumpFrontier()
 	refQueries := c02Queries(P, r.Int63())
-	schedules := []string{"one-by-one", "random-batches", "gossip-all-first", "gossip-subset-late", "warm-caches", "restarts", "rlp-wire"}
+	schedules := []string{"one-by-one", "random-batches", "gossip-all-first", "gossip-subset-late", "warm-caches", "restarts", "rlp-wire", "competing-siblings-heard"}
 	var rawRef map[string]string
 	for si, sched := range schedules {
 		sr := rand.New(rand.NewSource(r.Int63()))
@@ -485,6 +512,7 @@ func c02trunc(s string) string {
 func c02Deliver(c *fw.C, P, F *simnet.Node, sched string, r *rand.Rand, gossip []c02Gossip) bool {
 	top := P.Height()
 	gi := 0 // next gossip index
+	si := 0 // next sibling index
 	sendGossip := func(upTo uint64, frac int, lag uint64) bool {
 		// deliver pool blocks P had accepted while its frontier was <= upTo-lag
 		var batch []*nom.AccountBlock
@@ -514,7 +542,7 @@ func c02Deliver(c *fw.C, P, F *simnet.Node, sched string, r *rand.Rand, gossip [
 			if r.Intn(5) == 0 {
 				size = 1 + r.Intn(128)
 			}
-		case "gossip-all-first":
+		case "gossip-all-first", "competing-siblings-heard":
 			size = 1 + r.Intn(3)
 		}
 		to := h + uint64(size)
@@ -523,6 +551,13 @@ func c02Deliver(c *fw.C, P, F *simnet.Node, sched string, r *rand.Rand, gossip [
 		}
 		c.SetAdd("batch_sizes", fmt.Sprint(to-h))
 		switch sched {
+		case "competing-siblings-heard":
+			for si < len(c02Siblings) && c02Siblings[si].atHeight <= h {
+				if err := F.Bridge.AddAccountBlocks([]*nom.AccountBlock{simnet.CloneBlock(c02Siblings[si].block)}); err == nil {
+					c.Count("competing_siblings_pooled_by_a_follower", 1)
+				}
+				si++
+			}
 		case "gossip-all-first":
 			sendGossip(h, 100, 0)
 		case "gossip-subset-late":
